@@ -100,8 +100,8 @@ def run(ex, st, node, kind, sep=None):
                 if r is not None:
                     yield st2, r
                     continue
-                seq = z3.If(Py.is_list(t), Py.items(t), z3.If(Py.is_tuple(t), Py.titems(t),
-                      z3.If(Py.is_dict(t), Py.keys(t), Py.elems(t))))
+                from .calls import py_items
+                seq = py_items(t)
                 yield from core(ex, st2, node, kind, sep, gen, elts, key, "seq", seq)
             continue
         if ikind == "hostseq":
@@ -172,14 +172,14 @@ def core_host(ex, st, node, kind, sep, gen, elts, items):
 
 def core(ex, st, node, kind, sep, gen, elts, key, ikind, payload):
     eng = ex.eng
-    n = z3.simplify(loops.length(ex, st, ikind, payload))
+    n = S.simp(loops.length(ex, st, ikind, payload))
     conc = arith.is_conc(n)
     c = ex.fr.contract
     inv = c.loops.get(key) if (c is not None and key is not None) else None
     if inv is None:
         if conc is not None and conc <= 64:
             items = [loops.element(ex, st, ikind, payload, z3.IntVal(k)) for k in range(conc)]
-            items = [V(x.ty, z3.simplify(x.t)) if isinstance(x, V) else x for x in items]
+            items = [V(x.ty, S.simp(x.t)) if isinstance(x, V) else x for x in items]
             yield from core_host(ex, st, node, kind, sep, gen, elts, items)
             return
         raise _U(f"comprehension {key} at line {node.lineno} has no invariant")
@@ -188,7 +188,7 @@ def core(ex, st, node, kind, sep, gen, elts, key, ikind, payload):
     g0 = loops.eval_inv(ex, st, inv, {"_i": S.mk_int(0), "_seq": seqv, "_acc": acc0, "_n": V("int", n)})
     eng.obligation(ex, st, f"{key}.init", g0, "loop-init", node)
     body_st = st.fork()
-    loops.havoc_for_loop(ex, body_st, [], ())
+    loops.havoc_for_loop(ex, body_st, [], (), heap=loops.may_modify_heap(ex, elts + list(gen.ifs)))
     exit_st = body_st.fork()
     i = S.fresh("_i", "int")
     acc = S.fresh("_acc", acc0.ty)
